@@ -255,6 +255,73 @@ def build():
     plan.target(Contract("cell:Style.from_storage", ensures=[fs_post], safety="fork", search=srch("search_styles"),
                          entry=lambda ex: {"cls": ClassRef("Style"), "cell": PObj("CellForStyle", {"_image_data": None}), "model": PObj("StyleModel", {})}))
 
+    # ------------------------------------------------------------------ update_paragraph_style: the stored archive takes EVERY text attribute of the style
+    # (run for a style that already has an archive - from the second save of an open document on): whatever the archive held before,
+    # afterwards each field is the style's current value, also when that value is 0.0 / False / black.
+    from pyvc.sym import SFloat, FloatS, i2f, fdiv
+    UL = {"kSingleUnderline": 1, "kNoUnderline": 0}
+    ST = {"kSingleStrikethru": 1, "kNoStrikethru": 0}
+    ctx.extra_globals["CharacterStyle"] = PObj("module", {"UnderlineType": PObj("enum", dict(UL)), "StrikethruType": PObj("enum", dict(ST))})
+
+    class FontNames(Custom):
+        def getitem(self, ex, idx, line):
+            return SStr(FONTNAME(lift(idx)))
+    FONTNAME = z3.Function("C15_font_name_of_family", Str, Str)
+    ctx.extra_globals["FONT_FAMILY_TO_NAME"] = FontNames()
+
+    def ups_entry(ex):
+        def old(kind, nm):
+            return ex.fresh(kind, "stored_" + nm)
+
+        def colour(prefix, kind):
+            return PObj("ColorV", {c: old(kind, prefix + c) for c in "rgb"})
+        char = PObj("CharPropsV", {"font_color": colour("fc_", "float"), "bold": old("bool", "bold"), "italic": old("bool", "italic"), "underline": old("int", "ul"),
+                                   "strikethru": old("int", "st"), "font_size": old("float", "size"), "font_name": old("str", "font"),
+                                   "tsd_fill": PObj("FillV", {"color": colour("fill_", "float")})})
+        para = PObj("ParaPropsV", {"alignment": old("int", "align"), "first_line_indent": old("float", "first"), "left_indent": old("float", "left"),
+                                   "right_indent": old("float", "right")})
+        style_obj = PObj("ParagraphStyleArchiveV", {"char_properties": char, "para_properties": para})
+        rgb = PObj("RGB", {c: ex.fresh("int", "font_" + c) for c in "rgb"})
+        for c in "rgb":
+            ex.assume(z3.And(T(rgb.fields[c]) >= 0, T(rgb.fields[c]) <= 255))
+        style = PObj("StyleU", {"underline": ex.fresh("bool", "underline"), "strikethrough": ex.fresh("bool", "strikethrough"), "font_color": rgb,
+                                "bold": ex.fresh("bool", "bold"), "italic": ex.fresh("bool", "italic"), "font_size": ex.fresh("float", "font_size"),
+                                "font_name": ex.fresh("str", "font_family"), "alignment": PObj("AlignmentV", {"horizontal": ex.fresh("int", "horizontal")}),
+                                "first_indent": ex.fresh("float", "first_indent"), "left_indent": ex.fresh("float", "left_indent"),
+                                "right_indent": ex.fresh("float", "right_indent"), "_text_style_obj_id": ex.fresh("int", "archive_id")})
+
+        class Objs(Custom):
+            def getitem(self_, ex_, idx, line):
+                if not T(idx).eq(T(style.fields["_text_style_obj_id"])):
+                    ex_.oblige(f"archive-of-this-style@L{line}: the archive updated is the style's own", z3.BoolVal(False), "ghost", line)
+                return style_obj
+        return {"self": PObj("ModelUPS", {"objects": Objs()}), "style": style, "g_obj": style_obj}
+
+    def ups_post(ex, env):
+        st, ob = env["style"].fields, env["g_obj"].fields
+        ch, pa = ob["char_properties"].fields, ob["para_properties"].fields
+
+        def same(a, b):
+            if isinstance(a, (bool, int)) and not isinstance(b, (bool, int)):
+                a = wrap(a)
+            try:
+                return lift(a) == lift(b)
+            except Exception:  # noqa: BLE001
+                return z3.BoolVal(False)
+
+        def chan(v, c):
+            return same(v, SFloat(fdiv(i2f(T(st["font_color"].fields[c])), i2f(z3.IntVal(255)))))
+        conj = [chan(ch["font_color"].fields[c], c) for c in "rgb"] + [chan(ch["tsd_fill"].fields["color"].fields[c], c) for c in "rgb"]
+        conj += [same(ch["bold"], st["bold"]), same(ch["italic"], st["italic"]), same(ch["font_size"], st["font_size"]),
+                 same(ch["font_name"], SStr(FONTNAME(lift(st["font_name"])))),
+                 T(ch["underline"]) == z3.If(st["underline"].t, 1, 0), T(ch["strikethru"]) == z3.If(st["strikethrough"].t, 1, 0),
+                 same(pa["alignment"], st["alignment"].fields["horizontal"]), same(pa["first_line_indent"], st["first_indent"]),
+                 same(pa["left_indent"], st["left_indent"]), same(pa["right_indent"], st["right_indent"])]
+        return z3.And(*conj)
+    ups_post.__name__ = ("after the update every text field of the archive is the style's current value (colour channels /255, underline and strikethrough "
+                         "as their enum, font family through the name table, alignment, the three indents), whatever the archive held and whatever the value")
+    plan.target(Contract("model:_NumbersModel.update_paragraph_style", entry=ups_entry, ensures=[ups_post], safety="fork", search=srch("search_styles")))
+
     def native_ground(fn):
         def run():
             from pyvc.run import native_call
